@@ -61,7 +61,70 @@ def gen_module(rng, name, others, long_params):
         body = body[: rng.range(10, max(11, len(body) - 1))]
     elif kind == 4:
         body += f"class Lam{cls} {{ function f(): int = {{ let g = ({loc}: int) -> {loc} + 1; g(1) }} }}\n"
+    elif kind in (5, 6):
+        # patterns of every form; with probability 1/2 one constructor / field / binder in a
+        # NON-first position is a unique misspelled long name (ill-typed module whose error detail
+        # and AST hold a string that occurs nowhere else)
+        v1, v2, v3 = ident(rng, True) + "A", ident(rng, True) + "B", ident(rng, True) + "C"
+        wrong = lambda v: (("Unique%dSpelledWrongly" % rng.below(10**6)) + v) if rng.chance(1, 2) else v
+        f1, f2 = ident(rng, False) + "X", ident(rng, False) + "Y"
+        body += (f"class Pt{cls}(val {f1}: int, val {f2}: int) {{}}\n"
+                 f"class En{cls}({v1}(int), {v2}(int), {v3}(Pt{cls})) {{\n"
+                 f"  method viaOr(): int = match this {{ {v1}({loc}) | {wrong(v2)}({loc}) -> {loc}, {v3}(_) -> 0 }}\n"
+                 f"  method viaStruct(): int = match this {{ {v3}({{ {f1}, {wrong(f2)} as {loc} }}) -> {f1} + {loc}, {v1}(_) | {wrong(v2)}(_) -> 1 }}\n"
+                 f"  method viaIfLet(): int = if let {wrong(v3)}({{ {f1} as {loc}, {f2} as _ }}) = this {{ {loc} }} else {{ 2 }}\n"
+                 f"  function viaTuple(pair: Pair<En{cls}, int>): int = {{ let ({v1}({loc}) | {wrong(v2)}({loc}), n) = pair; {loc} + n }}\n"
+                 f"}}\n")
     return body, cls
+
+
+KEYWORDS = set("""import from class interface val function method as private protected internal public if then
+else match let return true false this unit int bool Str Process Vec panic println fromInt toInt concat
+init std list map set option result tuples boxed interfaces List Map Set Option Result Pair Triple Int
+Some None Ok Error Cons Nil Comparable Hashable length get push pop of empty withCapacity capacity reserve
+forEach fold compare hash value""".split())
+_SAMPLES = None
+
+
+def sample_pool():
+    """tests/*.sam of the repository (<= 3.5 KB), identifiers lengthened so that they live in the
+    heap string table: every syntactic form the repo's own programs use, with long names."""
+    global _SAMPLES
+    if _SAMPLES is None:
+        _SAMPLES = []
+        d = os.path.join(common.REPO, "tests")
+        for f in sorted(os.listdir(d)):
+            if not f.endswith(".sam") or f == "AllTests.sam":
+                continue
+            text = open(os.path.join(d, f), encoding="utf-8").read()
+            if len(text) > 2500:
+                continue
+            imported = set(re.findall(r"[A-Za-z_][A-Za-z0-9_]*", " ".join(l for l in text.split("\n") if l.startswith("import"))))
+            def ren(m):
+                w = m.group(0)
+                if w in KEYWORDS or w in imported or len(w) == 1:
+                    return w
+                return w + "WithQuiteALongSuffix"
+            # do not touch string literals
+            parts = re.split(r'("(?:[^"\\\n]|\\.)*")', text)
+            text2 = "".join(p if i % 2 else re.sub(r"[A-Za-z_][A-Za-z0-9_]*", ren, p) for i, p in enumerate(parts))
+            _SAMPLES.append(text2)
+    return _SAMPLES
+
+
+def gen_sample_module(rng):
+    """A lengthened sample program; with probability 1/2 one identifier occurrence is replaced by a
+    unique long unknown name (an ill-typed module whose error detail holds a string nothing else
+    holds - the marker must cover it wherever it sits: pattern alternatives, annotations, ...)."""
+    text = rng.pick(sample_pool())
+    if rng.chance(1, 2):
+        occ = [m for m in re.finditer(r"[A-Za-z_][A-Za-z0-9_]*WithQuiteALongSuffix", text)]
+        if occ:
+            m = rng.pick(occ)
+            w = m.group(0)
+            uniq = ("Unique" if w[0].isupper() else "unique") + "NameNumber%dSpelledWrongly" % rng.below(10**6)
+            text = text[:m.start()] + uniq + text[m.end():]
+    return text
 
 
 def gen_history(rng, nops, long_params):
@@ -74,7 +137,10 @@ def gen_history(rng, nops, long_params):
             parts = []
             for _ in range(2 if op == "up2" else 1):
                 m = rng.pick(MODS)
-                text, cls = gen_module(rng, m, [(om, oc) for om, oc in others if om != m], long_params)
+                if long_params and rng.chance(2, 5) and sample_pool():
+                    text, cls = gen_sample_module(rng), "Main"
+                else:
+                    text, cls = gen_module(rng, m, [(om, oc) for om, oc in others if om != m], long_params)
                 cur[m] = (text, cls)
                 parts += [m, hexs(text)]
             lines.append("up " + " ".join(parts))
@@ -115,10 +181,10 @@ def model_lines(lines, impl):
     out = []
     for l, a in zip(lines, impl):
         t = l.split(" ")[0]
-        if t == "reset":
+        if t in ("up", "rn", "rm", "new", "reset") and a.startswith("ok "):
+            out.append(("reset\n" if t in ("new", "reset") else "") + "op " + a[3:])
+        elif t == "reset":
             out.append("reset")
-        elif t in ("up", "rn", "rm", "new") and a.startswith("ok "):
-            out.append(("reset\n" if t == "new" else "") + "op " + a[3:])
         else:
             out.append(None)
     return out
@@ -160,7 +226,7 @@ def check_history(ctx, lines, long_params, label, stats):
             n = ml[k].count("\n") + 1
             ans = model[mi + n - 1] if mi + n - 1 < len(model) else "<driver missing>"
             mi += n
-            if t != "reset":
+            if True:
                 m = re.match(r"ok stat=(\S+) mods=", a)
                 mm = re.match(r"stat=(\S+) gc=(\S+)", ans)
                 stats["ops"] += 1
@@ -184,17 +250,22 @@ def check_history(ctx, lines, long_params, label, stats):
 def run(ctx):
     res = common.proof_gate(ctx)
     rng = ctx.rng
-    nh = ctx.scale(40, 1500)
-    nops = ctx.scale(8, 14)
+    nh = ctx.scale(48, 1200)
+    nops = ctx.scale(7, 14)
     stats = {"ops": 0, "queries": 0, "sweeps": 0}
     samples, nontrivial, seen = [], 0, set()
     findings_hit = {}
 
     searching = [False]
 
-    def handle(lines, long_params, label):
+    def handle(lines, long_params, label, pre=None):
         nonlocal nontrivial
-        impl, problems = check_history(ctx, lines, long_params, label, stats)
+        if pre is not None:
+            impl, problems, st = pre
+            for k2 in stats:
+                stats[k2] += st[k2]
+        else:
+            impl, problems = check_history(ctx, lines, long_params, label, stats)
         unexplained = []
         for k, kind, text in problems:
             f = classify_panic(ctx, lines, k, text, long_params) if kind == "panic" else None
@@ -253,20 +324,25 @@ def run(ctx):
         lines = [l.rstrip("\n") for l in open(os.path.join(cdir, f)) if l.strip()]
         handle(lines, "longparam" in f, f"corpus/{f}")
     done = 0
-    while done < nh and not ctx.violations:
+    # histories are generated up front (deterministic in the seed) and executed 8 at a time
+    from concurrent.futures import ThreadPoolExecutor
+    jobs = []
+    for j in range(nh):
         r = rng.fork()
-        # bulk stream avoids the signature of open finding C11-F2 (long member parameter names)
-        f2_open = any(f["id"] == "C11-F2" for f in ctx.open_findings)
-        long_params = (not f2_open) or (done % 10 == 9)
-        lines = gen_history(r, r.range(3, nops), long_params)
-        handle(lines, long_params, f"generated seed={ctx.seed} #{done}")
-        done += 1
-    # slice-boundary stream: around NUM_MODULE_MARKED_PER_SLICE modules
+        jobs.append((gen_history(r, r.range(3, nops), True), True, f"generated seed={ctx.seed} #{j}"))
     for n in ([100, 101] if ctx.quick else [1, 99, 100, 101, 102, 150, 201]):
-        if ctx.violations:
-            break
-        handle(gen_many_modules(rng.fork(), n), True, f"many-modules n={n}")
-        done += 1
+        jobs.append((gen_many_modules(rng.fork(), n), True, f"many-modules n={n}"))
+
+    def work(job):
+        st = {"ops": 0, "queries": 0, "sweeps": 0}
+        impl, problems = check_history(ctx, job[0], job[1], job[2], st)
+        return impl, problems, st
+    with ThreadPoolExecutor(max_workers=8) as ex:
+        for job, pre in zip(jobs, ex.map(work, jobs)):
+            if ctx.violations:
+                break
+            handle(job[0], job[1], job[2], pre)
+            done += 1
     ctx.cov.update({
         "evaluations": done, "distinct_nontrivial": nontrivial,
         "rule": "random histories of update(1-2 modules)/rename/remove/new over 6 module names with long (>15 byte, heap-allocated) identifiers in every identifier position, comments and string literals; valid / ill-typed / truncated contents importing each other; after EVERY operation all 10 query kinds (hover, definition, references, signature help, completion, code actions, rename x2, formatting, folding, error rendering) at every line/column of every module ever mentioned + out-of-range positions + an absent module. non-trivial = distinct history in which a real GC round marked modules and swept",
